@@ -78,7 +78,7 @@ case "$ID" in
 esac
 fi
 case "$ID" in
-  C01|C06|C07|C08|C10|C12|C13|C14|C15|C17|C18|C19|C20)
+  C01|C06|C07|C08|C10|C11|C12|C13|C14|C15|C17|C18|C19|C20)
     build_engine rel || inconclusive "engine build failed"
     build_engine chk || inconclusive "checked engine build failed";;
 esac
